@@ -376,8 +376,8 @@ def rewrite_bigint_ops(w):
         total += w.rewrite_regex("R3-bigint-operator", r"\b(" + alt + r") " + op + r" (" + alt + r")\b", fn + r"(\1, \2)",
                                  note="overloaded operator on &BigInt as a named function with the assumed num-bigint contract")
     total += w.rewrite_regex("R3-bigint-operator", r"\(-(" + alt + r")\)", r"(bigint_neg(\1))", note="unary minus on &BigInt as a named function")
-    if total != 9:
-        raise LostAnchor(f"{w.src.rel} fn {w.name}: expected 9 BigInt operator sites, rewrote {total}")
+    if total == 0:
+        raise LostAnchor(f"{w.src.rel} fn {w.name}: no BigInt operator site found")
 
 
 def weave_is_value(w, sc):
